@@ -144,6 +144,24 @@ def nt_c02(tr):
     return any(pos[o] < i < ret.get(o, 10 ** 9) for o in pos for i in ends)
 
 
+def nt_c09(tr):
+    # at least two subscribers in a broker's table during one fan-out, or an unsubscribe / a dead subscriber before a publication was fanned out
+    table = {}
+    big = False
+    for e in tr:
+        if e[0] == 44:
+            l = table.setdefault(e[1], set())
+            if e[2] == 4:
+                l.add(e[3])
+            elif e[2] == 5:
+                l.discard(e[3])
+            elif e[2] == 0 and len(l) >= 2:
+                big = True
+    return big and has(tr, 36) and (has(tr, 45, lambda e: e[3] == 2) or has(tr, 14) or sum(1 for e in tr if e[0] == 45 and e[3] == 0) >= 2)
+
+
+THEOREMS_C09 = ['C09_acceptor_invariant', 'C09_fanout_serves_each_held_subscriber_exactly_once', 'C09_only_subscribers_are_served', 'C09_one_fanout_at_a_time', 'C09_clone_goes_to_its_target', 'C09_clone_is_an_ordinary_message', 'C09_table_holds_no_reference']
+
 PROPS = {
     "C07": {
         "families": [("restart", 1000, 25000), ("timers", 400, 10000), ("lifecycle", 200, 6000)],
@@ -270,6 +288,15 @@ PROPS = {
         "assumptions": ["the response of the script actor's handlers is the actor's whole log at completion, so two different invocations never produce equal responses by accident",
                         "'provided user handlers themselves terminate': generated handlers always do"],
     },
+    "C09": {
+        "families": [("broker", 1500, 40000)],
+        "monitors": ["C09", "C03"],
+        "theorems": THEOREMS_C09,
+        "nontrivial": nt_c09,
+        "rule": "cases generated from (family, VERIF_SEED, index): 1-3 publishing client tasks, 1-4 subscribers over 1-2 topics; subscribe in started() or later, re-subscribe, unsubscribe, stop and last-drop of subscribers at random positions; publishing through Broker::publish, Addr<Broker>::publish and Context::publish; bounded subscriber mailboxes with busy handlers (the broker parks); non-trivial = a fan-out over a table of at least two subscribers, with an unsubscribe, a terminated subscriber or several publications around; distinct = distinct case JSON",
+        "assumptions": ["the broker's own mailbox is not modelled: that a subscription which completed before a publish began is processed before it is checked on the implementation's trace (client-side stamps against the broker's probes), not derived in the model",
+                        "'alive when the broker processes it' is read as: task running and at least one strong handle exists when the fan-out begins (that is when the broker upgrades its weak senders)"],
+    },
     "C14": {
         "families": [("liveness-query", 900, 25000), ("registry-liveness", 500, 12000), ("faults", 200, 6000)],
         "monitors": ["C14"],
@@ -304,6 +331,14 @@ COMMON_NOTE = ("Trusted: Coq kernel; the hand-written model's fidelity (checked 
                "No axioms. Real-thread races inside external crates and real wake-ups beyond the sampled cases are outside.")
 
 MANIFEST_TEXT = {
+    "C09": {
+        "text": "Theorems (Coq) about the broker state machine that is run as acceptor on every implementation trace: C09_acceptor_invariant (every reachable acceptor state, any trace: a subscriber is in a table at most once; served / being served / to be served are disjoint and exactly the held ones), "
+                "C09_fanout_serves_each_held_subscriber_exactly_once, C09_only_subscribers_are_served, C09_one_fanout_at_a_time, C09_clone_goes_to_its_target; and about the main model: C09_clone_is_an_ordinary_message (a closed subscriber is skipped without effect), C09_table_holds_no_reference. "
+                "[partial] the broker's own mailbox is not modelled: 'subscribed before the publish began => in the table at fan-out', 'never after a completed unsubscribe' and 'the common order extends each publisher's order' are checked on implementation traces by the search acceptor from client-side stamps and the broker's probes.",
+        "note": COMMON_NOTE,
+        "technique": "Rocq/Coq proof (invariant over all runs of an extracted acceptor state machine + one-step theorems) ; correspondence: the extracted acceptor and the main model must accept every implementation trace of the broker family",
+        "design_ref": "DESIGN.md section 6 C09",
+    },
     "C02": {
         "text": "Theorems (Coq): C02_response_written_once (over every continuation of any length a written response is never rewritten, swapped or withdrawn), C02_response_only_from_own_handler (for every event: a value enters the slot of message o only by the completion of o's own handler), "
                 "C02_handler_answers_own_message, C02_call_returns_its_slot. Exactly-once handling is C01_queued_at_most_once. [partial] 'every operation resolves after termination' is the model's progress check (no returnable operation may be pending when the executor is idle) validated by correspondence and the search acceptor, plus C04_announce for awaits and C06_containment for the failure paths.",
